@@ -171,6 +171,10 @@ class ListQuery(OpSpec):
     def run(self, sess, op):
         out = Outcome()
         h = sess.world.get(op["h"])
+        if _nan_times(h.obj):
+            # a list holding a missing time (assigned through a stack on purpose): order and bounds are not defined for it
+            out.skipped = True
+            return out
         tl = h.obj
         rows = alpha_list(tl)["rows"]
         q = op["q"]
@@ -354,6 +358,10 @@ class ListSorted(OpSpec):
     def run(self, sess, op):
         out = Outcome()
         h = sess.world.get(op["h"])
+        if _nan_times(h.obj):
+            # a list holding a missing time (assigned through a stack on purpose): order and bounds are not defined for it
+            out.skipped = True
+            return out
         tl = h.obj
         a = alpha_list(tl)
         rev = bool(op.get("reverse", False))
@@ -420,6 +428,14 @@ class ListAppend(OpSpec):
         return out
 
 
+def _nan_times(tl) -> bool:
+    try:
+        df = tl.df
+        return any(c in df.columns and bool(df[c].isna().any()) for c in ("offset", "length"))
+    except Exception:
+        return False
+
+
 def _pred_after(row, off, inc, hold, tail):
     o, ln = row["offset"], (row["length"] if (hold and tail) else 0)
     if o is NAN or ln is NAN:
@@ -445,6 +461,10 @@ class ListFilter(OpSpec):
     def run(self, sess, op):
         out = Outcome()
         h = sess.world.get(op["h"])
+        if _nan_times(h.obj):
+            # a list holding a missing time (assigned through a stack on purpose): order and bounds are not defined for it
+            out.skipped = True
+            return out
         tl = h.obj
         a = alpha_list(tl)
         hold = _is_hold(h)
@@ -498,7 +518,7 @@ class ListFilter(OpSpec):
         if type(res.value) is not type(tl):
             out.fail("C16", inv, f"{f} returned {type(res.value).__name__}")
         offs = {r["offset"] for r in a["rows"]}
-        ends_ = {r["offset"] + r["length"] for r in a["rows"]} if hold else set()
+        ends_ = {r["offset"] + r["length"] for r in a["rows"] if r["offset"] is not NAN and r["length"] is not NAN} if hold else set()
         for b in (op.get("lo"), op.get("hi")):
             if b is not None and (b in offs or b in ends_):
                 out.probes.append("filter_bound_equals_offset")
@@ -518,6 +538,10 @@ class ListMove(OpSpec):
     def run(self, sess, op):
         out = Outcome(own_kind=False)
         h = sess.world.get(op["h"])
+        if _nan_times(h.obj):
+            # a list holding a missing time (assigned through a stack on purpose): order and bounds are not defined for it
+            out.skipped = True
+            return out
         tl = h.obj
         n = len(tl.df)
         if n == 0:
